@@ -42,7 +42,9 @@ void pkt_to_ogg(const pkt_t *p, ogg_packet *op);
 
 /* ---------- signals ---------- */
 enum { SIG_SILENCE=0, SIG_DC, SIG_TONE, SIG_MULTI, SIG_NOISE, SIG_CLICKS, SIG_SWEEP,
-       SIG_OVER, SIG_DENORM, SIG_ALT, SIG_BURSTS, SIG_IMPULSE, SIG_ENDCLICK, SIG_NKINDS };
+       SIG_OVER, SIG_DENORM, SIG_ALT, SIG_BURSTS, SIG_IMPULSE, SIG_ENDCLICK,
+       SIG_GATED /* multi-tones, each channel digitally silent in its own segments */, SIG_WIDE /* per-channel partials up to 0.42*rate */, SIG_NKINDS };
+#define SIG_NCLASSIC 13   /* kinds drawn by gen_chain (kept fixed so that adding kinds does not reshuffle existing workloads) */
 float sig_sample(int kind, uint64_t seed, int ch, long i, long rate, long nsamples);
 const char *sig_name(int kind);
 
